@@ -98,6 +98,24 @@ def special_link(ctx):
     open(os.path.join(d, "go.mod"), "w").write(
         "module minimal\n\ngo %s\n\nrequire github.com/bytemare/secp256k1 v0.0.0\n\nreplace github.com/bytemare/secp256k1 => %s\n" % (gover, REPO))
     shutil.copy(os.path.join(REPO, "go.sum"), os.path.join(d, "go.sum"))
+    # every build configuration the module distinguishes: default, plus each custom //go:build tag (Facts.buildTags)
+    tags = []
+    try:
+        facts = open(os.path.join(LEAN, "Secp", "Gen", "Facts.lean")).read()
+        m = re.search(r"def buildTags : List String := \[(.*?)\]", facts)
+        tags = [t.strip().strip('"') for t in m.group(1).split(",") if t.strip()]
+    except Exception:
+        pass
+    for tag in tags:
+        rt = sh(["go", "build", "-tags", tag, "-o", "minimal_" + tag, "."], cwd=d, env=GOENV)
+        if rt.returncode != 0:
+            continue
+        rr = sh([os.path.join(d, "minimal_" + tag)])
+        ctx.coverage["evaluations"] = ctx.coverage.get("evaluations", 0) + 3
+        ctx.samples.append("minimal main built with -tags %s: exit %d" % (tag, rr.returncode))
+        if rr.returncode != 0:
+            ctx.violations.append({"kind": "special", "op": "LINK minimal-main -tags " + tag,
+                                   "detail": {"exit": rr.returncode, "build": "go build -tags " + tag, "output": rr.stdout[-600:], "program": MINIMAL_MAIN}})
     r = sh(["go", "build", "-o", "minimal", "."], cwd=d, env=GOENV)
     if r.returncode != 0:
         ctx.violations.append({"kind": "correspondence-broken", "detail": "minimal main does not build: " + r.stdout[-800:]})
